@@ -61,6 +61,12 @@ class Ctx:
         self.notes = []
         self.assumption_failures = []
         self.quick = tier == 'quick'
+        self.boost = 1              # > 1 when the anchored source differs from what the model was transcribed from
+        self.anchor = None
+
+    def n(self, quick, thorough):
+        """how many cases: the quick count (times the boost, never beyond the thorough count) or the thorough count"""
+        return min(thorough, quick * self.boost) if self.quick else thorough
 
     # ---- bookkeeping
     def case(self, key, nontrivial=True, sample=None):
@@ -286,6 +292,7 @@ def finish(ctx, audit, level_note_assumptions, explanation, extra_cov=None):
         'disagreements_checked': ctx.stats.get('corr_requests', 0),
         'correspondence_failures': ctx.stats.get('corr_failures', 0),
         'input_distribution': {k: v for k, v in sorted(ctx.stats.items())},
+        'source_anchor': dict(ctx.anchor or {}, boost=ctx.boost),
         'known_findings_reobserved': [k['id'] for k in ctx.known],
         'exhaustive': False,
     }
